@@ -135,7 +135,7 @@ DESCR = {
     "Render": "`render/*.go` + `tags/*.go`: compile to `Node`, interaction tree `Prog` of writer calls, render monad `M`, statuses (break/continue), `wrapError`, if/unless/case, for/tablerow/cycle, assign/capture, include with fuel",
     "TrimWriter": "`render/trimwriter.go` on bytes: `TW.step` with the underlying `Write` calls it issues",
     "TrimGeneric": "the same machine over an arbitrary alphabet (proof vehicle of C13)",
-    "Std": "the standard configuration: `stdPrims`, `stdOut`, filter table Num ++ Str ++ Arr, file-system model, canonical result printing",
+    "Std": "the standard configuration: `stdPrims`, `stdOut`, filter table Num ++ Str ++ Arr ++ Json, file-system model, canonical result printing",
     "Conc": "interleaving machine over a store with ownership regions (C04)",
     "ConcFacts": "the static premise of C04 stated over the generated write table",
     "Driver": "line-protocol dispatcher (one op per line → one canonical result line)",
@@ -144,6 +144,7 @@ DESCR = {
     "Filters/StrGlue": "string filters plugged into the call layer (lazy arguments)",
     "InsertionSort": "Go's `sort.insertionSort` (`sort/zsortinterface.go`) — all of `sort.Sort` on at most 12 elements — loop by loop, for a total and for a partial (panicking / unmodelled) comparator",
     "Filters/Arr": "array filter bodies (compact concat join map reverse sort sort_natural first last uniq): the sorts exact up to 12 elements (insertion sort), a sorted permutation beyond; canonical sort form for results of more than 12 elements",
+    "Filters/Json": "`json`, `inspect`, `type`: `encoding/json` marshalling of the value universe (float format switch, HTML-safe string escaping, base64, sorted map keys, structs, pointers, `time.Time`) and `%T`",
     "TokenReSrc": "`parser.formTokenMatcher` as data (`StrExpr`, `TokenReSrc.pattern`: Sprintf/QuoteMeta/Join/range), `regexp.QuoteMeta`, the printer `Re.toGoSyntax` of the model's expressions in Go syntax (T4)",
     "Rex": "driver ops `rex`/`rexs`: decode an expression, print it, match it, answer like `FindStringSubmatchIndex`",
     "Generated/Writes": "written by translator T3 on every run: every store to a captured or package-level variable",
